@@ -58,6 +58,17 @@ CLAIMED = {
         'are not decided.',
         'contract-based deductive verification (PyVC, heap frames on all exits) + AST guard inventory',
         'DESIGN.md 6/C15'),
+    'C14': (
+        'Deductive: CompiledSubprocess._send proved against its crash contract under explicit I/O contracts '
+        '(dump may raise BrokenPipeError, load may raise EOFError or UnpicklingError): every dead-helper path raises '
+        'InternalError and nothing else, sets is_crashed and runs the cleanup; a crashed helper is refused without '
+        'I/O; only the helper-reported exception may otherwise escape; the flag is untouched on success. _kill, run '
+        '(deletion queue drained before the request), delete_inference_state and __del__ (no traffic to a crashed '
+        'helper) proved; cleanup layout and crashed-helper replacement decided on the AST.',
+        'Trusted: the stated pickle/pipe I/O contracts, weakref.finalize runs _cleanup_process; liveness ("no query '
+        'hangs"), OS-level descriptor accounting and thread interleavings are not decided.',
+        'contract-based deductive verification (PyVC: exception paths, heap frames, effect traces) + AST obligations',
+        'DESIGN.md 6/C14'),
 }
 
 NOT_APPLICABLE = {
